@@ -20,6 +20,9 @@ var (
 
 	defaultPingIntervalForServer = 10 * time.Second
 	defaultPingTimeoutForServer  = time.Second
+
+	// connectTimeout bounds the wait for the ConnectResponse.
+	connectTimeout = 30 * time.Second
 )
 
 // ClientConnは、Client側のコネクションです。
@@ -172,7 +175,11 @@ func Connect(c *ClientConnConfig) (*ClientConn, error) {
 		},
 	}
 
+	// A peer that accepts the transport but never answers the handshake must not block
+	// Connect (and with it every reconnect attempt) for ever: give up by closing the transport.
+	handshakeTimer := time.AfterFunc(connectTimeout, func() { _ = c.Transport.Close() })
 	msg, err := conn.waitForConnected(pingIntervalServer, pingTimeoutServer)
+	handshakeTimer.Stop()
 	if err != nil {
 		if !errors.Is(err, transport.ErrAlreadyClosed) {
 			conn.logger.Errorf(ctx, "occurred in waitForConnected: %+v", err)
